@@ -298,6 +298,16 @@ add("Quire_lmbda", P.Quire,
     lambda s, ml=NAN, classes=(0, 1, 2): P.Quire(classes=list(classes), lmbda=0.3, metric_dict={"gamma": 0.5}, missing_label=ml, random_state=s),
     feat=False, independent=True, perm=True, needs_classes=True, nmax=20, lazy=True)
 
+# caller-owned cluster_algo_dict WITHOUT a random_state entry (the strategy has to seed its clustering itself and must
+# neither write into the caller's dict nor reuse a generator across queries)
+add("TypiClust_userdict", P.TypiClust,
+    lambda s, ml=NAN: P.TypiClust(cluster_algo_dict={"n_init": 1}, missing_label=ml, random_state=s), kind="both", feat=False, lazy=True)
+add("Clue_userdict", P.Clue, lambda s, ml=NAN: P.Clue(cluster_algo_dict={"n_init": 1}, missing_label=ml, random_state=s),
+    lambda c: dict(clf=_ctx_clf(c)), model_arg="clf", lazy=True, feat=False)
+add("DropQuery_userdict", P.DropQuery,
+    lambda s, ml=NAN: P.DropQuery(cluster_algo_dict={"n_init": 1}, missing_label=ml, random_state=s),
+    lambda c: dict(clf=_ctx_clf(c)), model_arg="clf", lazy=True, feat=False)
+
 POOL_WRAPPERS = {"SubSamplingWrapper", "ParallelUtilityEstimationWrapper"}
 POOL_NON_STRATEGY = {"multiannotator", "utils", "cost_reduction", "uncertainty_scores",
                      "expected_average_precision", "average_kl_divergence", "vote_entropy",
